@@ -1035,9 +1035,15 @@ class mulgrid(object):
                         c.neighbour.remove(col)
                         col2.neighbour.add(c)
                         c.neighbour.add(col2)
+                    n3.column.remove(col)
                     del col.node[i[3]]
                     col.centre = col.centroid
+                    col.get_area()
+                    col2.num_layers = col.num_layers
                     self.add_column(col2)
+                    # connections switched to col2 are now found under its name:
+                    self.connection = dict([(tuple([c.name for c in con.column]), con)
+                                            for con in self.connectionlist])
                     self.add_connection(connection([col, col2]))
                     self.setup_block_name_index()
                     self.setup_block_connection_name_index()
